@@ -19,6 +19,9 @@ Model/MsgWriter.vos Model/MsgWriter.vok Model/MsgWriter.required_vos: Model/MsgW
 Model/NameWire.vo Model/NameWire.glob Model/NameWire.v.beautified Model/NameWire.required_vo: Model/NameWire.v Base/Res.vo Base/Octets.vo Gen/Consts.vo
 Model/NameWire.vio: Model/NameWire.v Base/Res.vio Base/Octets.vio Gen/Consts.vio
 Model/NameWire.vos Model/NameWire.vok Model/NameWire.required_vos: Model/NameWire.v Base/Res.vos Base/Octets.vos Gen/Consts.vos
+Proofs/MsgWriterInvP.vo Proofs/MsgWriterInvP.glob Proofs/MsgWriterInvP.v.beautified Proofs/MsgWriterInvP.required_vo: Proofs/MsgWriterInvP.v Base/ListX.vo Model/MsgWriter.vo Proofs/NameWireP.vo Proofs/MsgWriterP.vo Proofs/MsgWriterScanP.vo Proofs/MsgWriterNameP.vo
+Proofs/MsgWriterInvP.vio: Proofs/MsgWriterInvP.v Base/ListX.vio Model/MsgWriter.vio Proofs/NameWireP.vio Proofs/MsgWriterP.vio Proofs/MsgWriterScanP.vio Proofs/MsgWriterNameP.vio
+Proofs/MsgWriterInvP.vos Proofs/MsgWriterInvP.vok Proofs/MsgWriterInvP.required_vos: Proofs/MsgWriterInvP.v Base/ListX.vos Model/MsgWriter.vos Proofs/NameWireP.vos Proofs/MsgWriterP.vos Proofs/MsgWriterScanP.vos Proofs/MsgWriterNameP.vos
 Proofs/MsgWriterNameP.vo Proofs/MsgWriterNameP.glob Proofs/MsgWriterNameP.v.beautified Proofs/MsgWriterNameP.required_vo: Proofs/MsgWriterNameP.v Base/ListX.vo Model/MsgWriter.vo Proofs/NameWireP.vo Proofs/MsgWriterP.vo Proofs/MsgWriterScanP.vo
 Proofs/MsgWriterNameP.vio: Proofs/MsgWriterNameP.v Base/ListX.vio Model/MsgWriter.vio Proofs/NameWireP.vio Proofs/MsgWriterP.vio Proofs/MsgWriterScanP.vio
 Proofs/MsgWriterNameP.vos Proofs/MsgWriterNameP.vok Proofs/MsgWriterNameP.required_vos: Proofs/MsgWriterNameP.v Base/ListX.vos Model/MsgWriter.vos Proofs/NameWireP.vos Proofs/MsgWriterP.vos Proofs/MsgWriterScanP.vos
